@@ -16,7 +16,7 @@ STAGE3 = ['crop', 'croprect', 'croprect', 'resize1', 'resize1', 'sel']
 STAGE4 = ['addmask', 'addmask', 'inverse', 'enumsel', 'clrsel', 'clrsel', 'erase', 'erase', 'sel', 'sel', 'sel', 'centerline', 'jlineleft', 'jlineright',
           'eraserow', 'eraserow_s', 'eraserow_e', 'erasecol', 'erasecol_s', 'erasecol_e']
 
-STAGE5 = ['rotate', 'rotate', 'delrow', 'delrow', 'insrow', 'insrow', 'delcol', 'delcol', 'inscol', 'inscol', 'scrup', 'scrup', 'scrdown', 'scrdown', 'caret', 'caret', 'desel']
+STAGE5 = ['rotate', 'rotate', 'delrow', 'delrow', 'insrow', 'insrow', 'delcol', 'delcol', 'inscol', 'inscol', 'scrup', 'scrup', 'scrdown', 'scrdown', 'scrleft', 'scrleft', 'scrright', 'scrright', 'sel', 'caret', 'caret', 'desel']
 
 PALS = [[0x000000, 0xAA0000, 0x00AA00, 0x0000AA], [0x101010 * k for k in range(16)], [0x000000, 0xFFFFFF], [],
         [0, 170, 43520, 43690, 11141120, 11141290, 11162880, 11184810, 5592405, 5592575, 5635925, 5636095, 16733525, 16733695, 16777045, 16777215, 0x123456, 0x00AA00]]
@@ -98,7 +98,7 @@ X_NAME = {'xresize': 'XResize', 'pal': 'XPal', 'sauce': 'XSauce', 'fontpage': 'X
           'addmask': 'XAddMask', 'inverse': 'XInverseSel', 'enumsel': 'XEnumSel', 'clrsel': 'XClrSel', 'erase': 'XErase',
           'centerline': 'XCenterLine', 'jlineleft': 'XJLineLeft', 'jlineright': 'XJLineRight', 'eraserow': 'XEraseRow', 'eraserow_s': 'XEraseRowS',
           'eraserow_e': 'XEraseRowE', 'erasecol': 'XEraseCol', 'erasecol_s': 'XEraseColS', 'erasecol_e': 'XEraseColE',
-          'rotate': 'XRotateL', 'delrow': 'XDelRow', 'insrow': 'XInsRow', 'delcol': 'XDelCol', 'inscol': 'XInsCol', 'scrup': 'XScrUp', 'scrdown': 'XScrDown',
+          'rotate': 'XRotateL', 'delrow': 'XDelRow', 'insrow': 'XInsRow', 'delcol': 'XDelCol', 'inscol': 'XInsCol', 'scrup': 'XScrUp', 'scrdown': 'XScrDown', 'scrleft': 'XScrLeft', 'scrright': 'XScrRight',
           'U': 'XSU', 'R': 'XSR'}
 H_NAME = {'xresize': 'resize 0', 'resize1': 'resize 1'}
 
@@ -203,7 +203,8 @@ X_DIRECTED = [
       ('R', []), ('R', []), ('R', []), ('R', []), ('R', []), ('R', [])]),
     # a scroll over part of the layer width is outside the model (skipped), the whole width is not
     ((base_doc(6, 4, [(6, 4, 0, 0, 1, 0, [[A, A, A, A], [Bc]])]), 0, 1, 0, 0, [], 0),
-     [('sel', [1, 0, 3, 2, 0]), ('scrup', []), ('desel', []), ('scrup', []), ('scrdown', []), ('scrdown', []), ('U', []), ('U', []), ('U', []), ('R', []), ('R', [])]),
+     [('sel', [1, 0, 3, 2, 0]), ('scrup', []), ('scrleft', []), ('scrright', []), ('scrright', []), ('desel', []), ('scrup', []), ('scrdown', []), ('scrdown', []), ('scrleft', []),
+      ('U', []), ('U', []), ('U', []), ('U', []), ('U', []), ('U', []), ('U', []), ('R', []), ('R', []), ('R', []), ('R', []), ('R', [])]),
     # paste, anchor, merge, stamp, crop, resize with layers
     ((base_doc(6, 4, [(6, 4, 0, 0, 1, 0, [[A, Bc, A], [Bc]])]), 0, 1, 0, 1, [], 0),
      [('pastex', [1, 1, 2, 1, A, Bc]), ('cur', [1]), ('stampdown', []), ('anchor', []), ('pastex', [4, 2, 3, 2, A, A, A, Bc, Bc, Bc]), ('merge', [1]),
@@ -213,6 +214,10 @@ X_DIRECTED = [
      [('sel', [1, 0, 3, 2, 0]), ('addmask', []), ('sel', [2, 1, 5, 3, 2]), ('addmask', []), ('inverse', []), ('enumsel', [66]), ('erase', []),
       ('sel', [0, 0, 2, 2, 0]), ('addmask', []), ('eraserow', []), ('erasecol_e', []), ('U', []), ('U', []), ('U', []), ('U', []), ('U', []), ('U', []), ('U', []), ('U', []), ('U', []),
       ('R', []), ('R', []), ('R', []), ('R', []), ('R', []), ('R', []), ('R', []), ('R', []), ('R', [])]),
+    # rows and columns with HIDDEN content: the layer stores 4 rows of 6 cells but is 4 x 3, then 3 x 2
+    ((base_doc(6, 4, [(4, 3, 0, 0, 1, 0, [[A, Bc, A, Bc, A, Bc], [Bc, A, A, A, A, A], [A, A, Bc, Bc, A, A], [Bc, Bc, Bc, A, A, A]])], 0, 0, 1, 1), 0, 1, 0, 0, [], 0),
+     [('lsize', [0, 3, 2]), ('inscol', []), ('delcol', []), ('insrow', []), ('delrow', []), ('caret', [4, 3]), ('inscol', []), ('delrow', []),
+      ('U', []), ('U', []), ('U', []), ('U', []), ('U', []), ('U', []), ('U', []), ('R', []), ('R', []), ('R', []), ('R', []), ('R', []), ('R', []), ('R', [])]),
     # rotate, rows and columns
     ((base_doc(6, 4, [(5, 3, 0, 0, 1, 0, [[A, enc(220, 7, 0, 0, 0), enc(179, 7, 0, 0, 0)], [Bc]])], 0, 0, 1, 1), 0, 1, 0, 0, [], 0),
      [('rotate', []), ('delrow', []), ('insrow', []), ('delcol', []), ('inscol', []), ('U', []), ('U', []), ('U', []), ('U', []), ('U', []), ('R', []), ('R', []), ('R', []), ('R', []), ('R', [])]),
